@@ -10,7 +10,7 @@ from .common import NPROC, finish
 def run(ctx):
     q = ctx.quick()
     b = shm.shmsim(ctx)
-    parts = shm.run_single(ctx, b, ["stopenum", "--focus", "C04", "--seed", str(ctx.seed), "--schedules", "16" if q else "128"], NPROC, 3000)
+    parts = shm.run_single(ctx, b, ["stopenum", "--focus", "C04", "--seed", str(ctx.seed), "--schedules", "16" if q else "128", "--signals", "1" if q else "2"], NPROC, 3000)
     ecov, eviol, esamples = shm.merge_sched(parts)
     plans = max([p.get("stop_plans", 0) for p in parts if p] or [0])
     crashed = any(p and p.get("_crashed") for p in parts)
